@@ -156,12 +156,12 @@ def search(rng, dis_cases, tier):
                 yield {"kind": "finite", "init": i2, "pop": [S(v) for v in sorted(pop)]}
 
 
-def run_seq(init, seq):
+def run_seq(init, seq, nm=None):
     """the least p-value an auditor sees on this sequence of draws: the test is called, as in a sequential
     audit, on every prefix of ONE sample buffer (views of the same float array), and the least overall value /
     history entry of any call is returned.  By non-anticipation this equals the least entry of the history of the
     whole sequence (which is what the model computes)."""
-    nm = NMG.make_nm(init)
+    nm = nm or NMG.make_nm(init)
     buf = np.array([float(v) for v in seq], dtype=float)
     m = float("inf")
     for k in range(1, len(buf) + 1):
@@ -180,15 +180,35 @@ def run_seq(init, seq):
 
 def impl(case):
     init = case["init"]
+    # ONE test object for all the samples of a case, as an assertion's test is used round after round (and audit
+    # after audit): what it reports on a sample must not depend on the samples it saw before
+    nm = NMG.make_nm(init)
     if case["kind"] == "finite":
         pop = [F(v) for v in case["pop"]]
-        mins = [run_seq(init, r) for r in arrangements(pop)]
+        mins = [run_seq(init, r, nm) for r in arrangements(pop)]
     else:
         vals = [F(v) for v in case["vals"]]
         seqs = [[]]
         for _ in range(case["n"]):
             seqs = [s + [v] for s in seqs for v in vals]
-        mins = [run_seq(init, s) for s in seqs]
+        mins = [run_seq(init, s, nm) for s in seqs]
+    # second pass: the whole samples back to back on the same object (a re-run of the audit on another ordering of
+    # the same cards: equal lengths, equal totals); an auditor would see these values too
+    allseq = list(arrangements(pop)) if case["kind"] == "finite" else seqs
+    for i, r in enumerate(allseq):
+        if isinstance(mins[i], str):
+            continue
+        buf = np.array([float(v) for v in r], dtype=float)
+        rr = impl_call(lambda: nm.test(buf))
+        if isinstance(rr, dict):
+            continue
+        p, h = rr
+        for v in [float(p)] + [float(z) for z in np.atleast_1d(h)]:
+            if math.isnan(v):
+                mins[i] = float("nan")
+                break
+            if not math.isnan(mins[i]):
+                mins[i] = min(mins[i], v)
     return {"st": "ok", "mins": mins, "n": len(mins)}
 
 
